@@ -77,36 +77,45 @@ Lemma sh_pop_loop : forall rest kept run seq, Forall cok rest -> in16 seq ->
 Proof.
   induction rest as [|c rest IH]; intros kept run seq Hr Hs.
   - cbn [pop_loop map]. change (@nil chunk) with (map shc []) at 1. rewrite retained_shc. cbn [fst snd]. auto.
-  - inversion Hr as [|? ? Hc Hr']; subst. cbn [map pop_loop].
-    change (shc c :: map shc rest) with (map shc (c :: rest)).
-    cbn [shc sid ppid last first unordered sseq tsn].
-    change (mkChunk (tsn c) (sid c) (sh16 (sseq c)) (unordered c) (first c) (last c) (ppid c) (udata c)) with (shc c).
+  - inversion Hr as [|? ? Hc Hr']; subst.
     assert (Hseq' : forall o, in16 (if o && (sseq c =? seq) then uint16_add seq 1 else seq))
       by (intros o; destruct (o && _); [apply uint16_add_range|exact Hs]).
     assert (Eseq : forall o, (if o && (sh16 (sseq c) =? sh16 seq) then uint16_add (sh16 seq) 1 else sh16 seq) =
                              sh16 (if o && (sseq c =? seq) then uint16_add seq 1 else seq)).
     { intros o. rewrite sh16_eqb by assumption. destruct (o && (sseq c =? seq)); [apply sh16_add|reflexivity]. }
-    destruct run as [[[r x] o]|]; cbn [shrun].
-    + destruct (negb (tsn c =? x)).
-      * destruct o.
-        -- cbn [fst snd]. split; [|exact Hs]. f_equal. f_equal. exact (retained_shc kept (Some (r, x, true)) (c :: rest)).
-        -- rewrite <- map_app. exact (IH (c :: r ++ kept) None seq Hr' Hs).
-      * destruct (last c).
-        -- change (shc c :: map shc r) with (map shc (c :: r)). rewrite <- map_rev, join_data_shc, Eseq.
-           destruct (IH kept None _ Hr' (Hseq' o)) as [E Hi]. cbn [shrun] in E. rewrite E.
-           destruct (pop_loop kept None rest _) as [[l s] ms]. cbn [fst snd] in *. auto.
-        -- exact (IH kept (Some (c :: r, tsn_plus_one x, o)) seq Hr' Hs).
-    + destruct (negb (first c)).
+    assert (HNone : forall kept0,
+      pop_loop (map shc kept0) None (map shc (c :: rest)) (sh16 seq) =
+      (let '(l, s, ms) := pop_loop kept0 None (c :: rest) seq in (map shc l, sh16 s, ms)) /\
+      in16 (snd (fst (pop_loop kept0 None (c :: rest) seq)))).
+    { intros kept0. cbn [map pop_loop].
+      change (shc c :: map shc rest) with (map shc (c :: rest)).
+      cbn [shc sid ppid last first unordered sseq tsn].
+      change (mkChunk (tsn c) (sid c) (sh16 (sseq c)) (unordered c) (first c) (last c) (ppid c) (udata c)) with (shc c).
+      destruct (negb (first c)).
       * destruct (negb (unordered c)).
-        -- cbn [fst snd]. split; [|exact Hs]. f_equal. f_equal. exact (retained_shc kept None (c :: rest)).
-        -- exact (IH (c :: kept) None seq Hr' Hs).
+        -- cbn [fst snd]. split; [|exact Hs]. f_equal. f_equal. exact (retained_shc kept0 None (c :: rest)).
+        -- exact (IH (c :: kept0) None seq Hr' Hs).
       * rewrite sh16_gt by assumption. destruct (negb (unordered c) && uint16_gt (sseq c) seq).
-        -- cbn [fst snd]. split; [|exact Hs]. f_equal. f_equal. exact (retained_shc kept None (c :: rest)).
+        -- cbn [fst snd]. split; [|exact Hs]. f_equal. f_equal. exact (retained_shc kept0 None (c :: rest)).
         -- destruct (last c).
            ++ change [shc c] with (map shc [c]). rewrite <- map_rev, join_data_shc, Eseq.
-              destruct (IH kept None _ Hr' (Hseq' (negb (unordered c)))) as [E Hi]. cbn [shrun] in E. rewrite E.
-              destruct (pop_loop kept None rest _) as [[l s] ms]. cbn [fst snd] in *. auto.
-           ++ exact (IH kept (Some ([c], tsn_plus_one (tsn c), negb (unordered c))) seq Hr' Hs).
+              destruct (IH kept0 None _ Hr' (Hseq' (negb (unordered c)))) as [E Hi]. cbn [shrun] in E. rewrite E.
+              destruct (pop_loop kept0 None rest _) as [[l s] ms]. cbn [fst snd] in *. auto.
+           ++ exact (IH kept0 (Some ([c], tsn_plus_one (tsn c), negb (unordered c))) seq Hr' Hs). }
+    destruct run as [[[r x] o]|]; cbn [shrun]; [|exact (HNone kept)].
+    cbn [map pop_loop].
+    change (shc c :: map shc rest) with (map shc (c :: rest)).
+    cbn [shc sid ppid last first unordered sseq tsn].
+    change (mkChunk (tsn c) (sid c) (sh16 (sseq c)) (unordered c) (first c) (last c) (ppid c) (udata c)) with (shc c).
+    destruct (negb (tsn c =? x)).
+    + destruct o.
+      * cbn [fst snd]. split; [|exact Hs]. f_equal. f_equal. exact (retained_shc kept (Some (r, x, true)) (c :: rest)).
+      * rewrite <- map_app. exact (HNone (r ++ kept)).
+    + destruct (last c).
+      * change (shc c :: map shc r) with (map shc (c :: r)). rewrite <- map_rev, join_data_shc, Eseq.
+        destruct (IH kept None _ Hr' (Hseq' o)) as [E Hi]. cbn [shrun] in E. rewrite E.
+        destruct (pop_loop kept None rest _) as [[l s] ms]. cbn [fst snd] in *. auto.
+      * exact (IH kept (Some (c :: r, tsn_plus_one x, o)) seq Hr' Hs).
 Qed.
 
 Lemma sh_pop_messages l seq : Forall cok l -> in16 seq ->
